@@ -236,6 +236,14 @@ fn rep_sets() -> Vec<(String, TileMap)> {
 	v.push(("z10 two tiles with an empty block in between, plus z0".to_string(), s4));
 	v.push(("dense 20x20 at z9 across four blocks".to_string(), tilesets::family_dense(9, 246, 246, 20, 20, 16)));
 	v.push(("full z2".to_string(), tilesets::family_dense(2, 0, 0, 4, 4, 8)));
+	// equal payloads inside one block (stored once by the versatiles writer, so several coordinates share a byte range)
+	let mut shared = TileMap::new();
+	for x in 0..8u32 {
+		for y in 0..8u32 {
+			shared.insert((3, x, y), if (x + y) % 3 == 0 { b"ocean".to_vec() } else if x == y { b"land".to_vec() } else { format!("t{x}{y}").into_bytes() });
+		}
+	}
+	v.push(("full z3 with payloads shared by many coordinates".to_string(), shared));
 	// 2 KiB tiles: a box narrower than the block skips more than the reader's 32 KiB read-chunk gap per row
 	v.push(("dense 44x10 at z9 with 2 KiB tiles (read-chunk splits)".to_string(), tilesets::family_dense(9, 210, 250, 44, 10, 2048)));
 	v
@@ -284,7 +292,7 @@ pub fn vpl_sources(mem: &[MemSource]) -> Vec<(String, String, Vec<u8>)> {
 
 pub fn run(ctx: Arc<Ctx>) {
 	ctx.rule(
-		"sources: 5 container readers x 6 representative tile sets written by the repository's writers; TilesConvertReader x 4 flag combinations x {unrestricted, restricted} over a MemSource and a versatiles file, and recompressing (gzip -> gzip/brotli/none, with and without force); \
+		"sources: 5 container readers x 8 representative tile sets written by the repository's writers (incl. payloads shared by many coordinates of one block); PMTiles (run lengths, shared offsets, leaf directories) and versatiles containers from the independent encoders; a reader with the trait's default box stream whose lookups answer after uneven delays; TilesConvertReader x 4 flag combinations x {unrestricted, restricted} over a MemSource and a versatiles file, and recompressing (gzip -> gzip/brotli/none, with and without force); \
 		 pipeline operations and nestings over MemSources, from_debug and a real versatiles file. boxes: all boxes at z<=2 (quick) / z<=3 (thorough), every box with corners from {0,255,256,511,cov_min(-1),cov_max(+1),max} at the sets' high zoom levels, all empty encodings at z 0,1,7,8,9,31. \
 		 oracle: multiset of streamed (coord, bytes) = lookups over the box. non-trivial = (source, box) pairs whose expected result is non-empty",
 	);
@@ -319,6 +327,36 @@ pub fn run(ctx: Arc<Ctx>) {
 				Err(e) => ctx.outcome(&format!("setup: {} reader failed for '{name}': {}", cont.name(), super::c01::norm_msg(&e))),
 			}
 		}
+	}
+	// A2. containers as other writers produce them (independent encoders): PMTiles with run lengths / shared
+	// offsets / leaf directories, versatiles with partial block coverage and shared ranges
+	{
+		use crate::codec::{PmLayout, VtLayout};
+		let mut runs = TileMap::new();
+		for id in 5u64..60 {
+			let k = crate::codec::pm_id_to_zxy(id).unwrap();
+			runs.insert(k, if id % 7 < 4 { b"same".to_vec() } else { format!("t{id}").into_bytes() });
+		}
+		runs.insert((0, 0, 0), b"same".to_vec());
+		let foreign: Vec<(String, Cont, Vec<u8>)> = vec![
+			("pmtiles, run lengths + leaf directories".into(), Cont::Pmtiles, crate::codec::pm_encode(&runs, 2, 1, b"{}", PmLayout { internal_gzip: true, run_lengths: true, share_offsets: false, leaf_levels: 1, leaf_size: 3, clustered: true, data_reversed: false })),
+			("pmtiles, run lengths + shared offsets, root only".into(), Cont::Pmtiles, crate::codec::pm_encode(&runs, 2, 1, b"{}", PmLayout { internal_gzip: false, run_lengths: true, share_offsets: true, leaf_levels: 0, leaf_size: 2, clustered: true, data_reversed: false })),
+			("versatiles, last layout of the independent encoder".into(), Cont::Versatiles, crate::codec::vt_encode(&sets[4].1, 0x10, 0, b"{}", *VtLayout::all().last().unwrap())),
+			("versatiles, layout #37".into(), Cont::Versatiles, crate::codec::vt_encode(&sets[2].1, 0x10, 0, b"{}", VtLayout::all()[37])),
+		];
+		for (fi, (name, cont, bytes)) in foreign.into_iter().enumerate() {
+			let tiles = if cont == Cont::Pmtiles { &runs } else if fi == 2 { &sets[4].1 } else { &sets[2].1 };
+			match ct::open(&rt, cont, &ct::Written::Bytes(bytes)) {
+				Ok(r) => {
+					let levels: Vec<u8> = tiles.keys().map(|k| k.0).collect::<std::collections::BTreeSet<_>>().into_iter().filter(|z| *z > 3).collect();
+					sources.push((Source { class: format!("{} reader (container of another writer)", cont.name()), name: format!("{} reader over {name}", cont.name()), src: AnySrc::Reader(r), universe: universe_of(&[tiles]), dense_everywhere: false, area_cost: cont != Cont::Versatiles, build: json!({"kind": "foreign", "index": fi}) }, levels));
+				}
+				Err(e) => ctx.outcome(&format!("setup: reader rejects a container of another writer (C16's subject): {}", super::c01::norm_msg(&e))),
+			}
+		}
+		// a reader that only implements lookups (box stream = the trait's default), answering after a coordinate-dependent number of Pending polls
+		let plain = crate::memsource::PlainSource(MemSource::new("plain", sets[4].1.clone(), TileFormat::BIN, TileCompression::Uncompressed).with_uneven_yields());
+		sources.push((Source { class: "reader with the trait's default box stream".into(), name: "plain reader, uneven answer times".into(), src: AnySrc::Reader(Box::new(plain)), universe: universe_of(&[&sets[4].1]), dense_everywhere: false, area_cost: true, build: json!({"kind": "plain-uneven"}) }, vec![9]));
 	}
 	// B. converting reader
 	let conv_tiles = {
@@ -426,6 +464,7 @@ pub fn run(ctx: Arc<Ctx>) {
 	let mut mem = mem;
 	mem.push(MemSource::new("m3", va.clone(), TileFormat::PBF, TileCompression::Uncompressed));
 	mem.push(MemSource::new("m4", vb.iter().map(|(k, v)| (*k, crate::codec::gzip(v))).collect(), TileFormat::PBF, TileCompression::Gzip).with_yields(1));
+	mem.push(MemSource::new("m5", tilesets::family_full_pyramid(3), TileFormat::BIN, TileCompression::Uncompressed));
 	std::fs::write(work.0.join("c02.csv"), "data_id,name\n7,seven\n8,eight\n").unwrap();
 	let mut all_sets: Vec<&TileMap> = sets.iter().map(|s| &s.1).collect();
 	all_sets.push(&va);
@@ -437,6 +476,12 @@ pub fn run(ctx: Arc<Ctx>) {
 		vpls.push(("pipeline from_vectortiles_merged".into(), format!("from_vectortiles_merged [ {}, {} ]", m(3), m(4)), vec![9]));
 		vpls.push(("pipeline from_vectortiles_merged of filters".into(), format!("from_vectortiles_merged [ {} | filter_zoom max=2, {} ] | filter_bbox bbox=[-180,-85,90,85]", m(3), m(4)), vec![9]));
 		vpls.push(("pipeline vectortiles_update_properties".into(), format!("{} | vectortiles_update_properties data_source_path=\"c02.csv\" layer_name=\"roads\" id_field_tiles=\"id\" id_field_data=\"data_id\"", m(3)), vec![9]));
+		vpls.push(("pipeline vectortiles_update_properties, layer in some tiles only".into(), format!("from_overlayed [ {}, {} ] | vectortiles_update_properties data_source_path=\"c02.csv\" layer_name=\"pois\" id_field_tiles=\"id\" id_field_data=\"data_id\"", m(3), m(4)), vec![9]));
+		vpls.push(("pipeline vectortiles_update_properties, layer in no tile".into(), format!("{} | vectortiles_update_properties data_source_path=\"c02.csv\" layer_name=\"absent\" id_field_tiles=\"id\" id_field_data=\"data_id\"", m(3)), vec![9]));
+		// geographic boxes whose edges are tile borders (lon 0 / 90, lat 0 / 66.513.. / 40.979..)
+		vpls.push(("pipeline filter_bbox with tile-aligned edges".into(), format!("{} | filter_bbox bbox=[0,0,90,66.51326044311186]", m(5)), vec![]));
+		vpls.push(("pipeline filter_bbox with tile-aligned edges".into(), format!("{} | filter_bbox bbox=[-90,-66.51326044311186,0,40.97989806962013]", m(5)), vec![]));
+		vpls.push(("pipeline filter_bbox with tile-aligned edges".into(), format!("{} | filter_bbox bbox=[-135,-40.97989806962013,45,79.17133464081945] | filter_bbox bbox=[-45,0,180,85]", m(5)), vec![]));
 		vpls.push(("pipeline overlay of vector sources".into(), format!("from_overlayed [ {}, {} ]", m(4), m(3)), vec![9]));
 	}
 	{
